@@ -93,6 +93,12 @@ def run(ctx):
     cases = [("corpus-" + h, ops) for h, ops in corpus] + gen_cases
     vf.write_cases(cases_file, cases)
     ok, bad = vf.lockstep(ctx, binp, drv, cases_file)
+    if ctx.tier == "thorough":
+        # second pass on a build with overflow checks and debug assertions (dev profile)
+        dbg = vf.cargo_build(["h_dddmp"], profile="dev")["h_dddmp"]
+        ok2, bad2 = vf.lockstep(ctx, dbg, drv, cases_file, tag="-dbg")
+        ctx.stats["cases_ok_debug_build"] = ok2
+        bad = bad + [(cid, "(debug build) " + msg) for cid, msg in bad2]
     evals, distinct = _count_distinct(cases)
     ctx.stats["distinct_nontrivial"] = distinct
     pick = [cases[0], cases[len(corpus)], cases[len(cases) // 2], cases[-1]]
